@@ -105,6 +105,8 @@ class Gen:
             self.macros.append(MacroDef(k, base, ns, params, locals_))
         # special macros, only ever called from the top level: one declaring an extern label, one declaring its first parameter
         self.special_calls: List[Tuple[MacroDef, Optional[str]]] = []
+        self.late_consts: List[Tuple[str, int]] = []
+        self.ns_consts: List[Tuple[List[str], str, int]] = []
         if rng.random() < 0.5:
             ns = [] if rng.random() < 0.5 else [rng.choice(NS_NAMES)]
             m = MacroDef(len(self.macros), 'ex', ns, rng.sample(POOL, rng.choice([0, 1])), [])
@@ -144,6 +146,20 @@ class Gen:
         for m in reversed(self.macros):
             self.fill_body(m)
         self.fill_top()
+        # constants spelled like parameters / locals / iterators (never like a global label of this program)
+        global_bases = {base for base, _ in self.globals}
+        free = [name for name in POOL if name not in global_bases]
+        self.late_consts = [(name, rng.choice([0, 3, 7, 1000])) for name in rng.sample(free, min(len(free), rng.choice([0, 0, 1, 2])))]
+        used = {name for name, _ in self.late_consts}
+        self.ns_consts = []
+        for name in [n for n in free if n not in used][:rng.choice([0, 0, 1, 2])]:
+            ns = pick_ns(rng) or [NS_NAMES[0]]
+            if (name, ns) not in self.globals:
+                self.ns_consts.append((ns, name, rng.choice([1, 5, 12])))
+        if self.late_consts:
+            self.feature('constants-spelled-like-parameters-defined-last')
+        if self.ns_consts:
+            self.feature('namespace-constants-spelled-like-locals')
 
     def global_leaves_for(self, m: Optional[MacroDef]) -> List[Any]:
         out = []
@@ -451,6 +467,15 @@ class Gen:
         for fi, chunk in enumerate(chunks):
             short = f'f{fi + 1}'
             lines: List[str] = []
+            if fi == 0:
+                # constants that live in a namespace, defined before everything else: only their qualified / dotted spelling means
+                # them - a bare parameter, local label or iterator of the same spelling inside that namespace is still itself
+                for ns, name, value in self.ns_consts:
+                    for depth, part in enumerate(ns):
+                        lines.append('    ' * depth + f'ns {part} {{')
+                    lines.append('    ' * len(ns) + f'{name} = {value}')
+                    for depth in reversed(range(len(ns))):
+                        lines.append('    ' * depth + '}')
             for kind, payload in chunk:
                 if kind == 'const':
                     lines.append(f'{payload} = {self.consts[payload]}')
@@ -468,6 +493,18 @@ class Gen:
                     lines.append(self.maybe_continue(self.render_stmt(op, None, lab['ns'], ind), op))
                     op['line'], op['file'] = self.physical(lines), short
                     for depth in reversed(range(len(lab['ns']))):
+                        lines.append('    ' * depth + '}')
+            if fi == len(chunks) - 1 and self.late_consts:
+                # constants defined AFTER everything that could be mistaken for a use of them: a parameter, a local label or an
+                # iterator of the same spelling keeps meaning what its macro says
+                for name, value in self.late_consts:
+                    lines.append(f'{name} = {value}')
+            if False:
+                for ns, name, value in self.ns_consts:
+                    for depth, part in enumerate(ns):
+                        lines.append('    ' * depth + f'ns {part} {{')
+                    lines.append('    ' * len(ns) + f'{name} = {value}')
+                    for depth in reversed(range(len(ns))):
                         lines.append('    ' * depth + '}')
             text = '\n'.join(lines) + '\n'
             if rng.random() < 0.12:  # a file saved with CRLF line endings is the same program, line for line
